@@ -226,6 +226,10 @@ func verif_Service_RegisterWorkConn(svr *Service, workConn net.Conn, newMsg *msg
 		verif.Ensures(verif.Called("Manager).NewWorkConn") && verif.RetErr("Manager).NewWorkConn", 1) == nil, "pooled_only_if_plugins_agree")
 		verif.Ensures(verif.Called("Verifier).VerifyNewWorkConn") && verif.RetErr("Verifier).VerifyNewWorkConn", 0) == nil, "pooled_only_if_verifier_accepts")
 		verif.Ensures(verif.CalledBefore("Verifier).VerifyNewWorkConn", "Control).RegisterWorkConn"), "verified_before_pooled")
+		// C15 "plugins see each other's edits": what the verifier judges is the
+		// message the plugin chain returned, not the one the client sent
+		ret := verif.Ret[*plugin.NewWorkConnContent]("Manager).NewWorkConn", 0)
+		verif.Ensures(ret != nil && verif.NthArg[*msg.NewWorkConn]("Verifier).VerifyNewWorkConn", 0, 1) == &ret.NewWorkConn, "verifier_judges_the_message_the_plugins_returned")
 	} else {
 		verif.Ensures(err != nil, "not_pooled_means_error")
 	}
@@ -320,6 +324,10 @@ func verif_RegisterProxy(ctl *Control, pxyMsg *msg.NewProxy) {
 	if err != nil {
 		verif.Ensures(delta == 0, "refused_registration_gives_quota_back")
 		verif.Ensures(!verif.Called(setOwn), "refused_registration_not_in_session")
+		// the only name this call may have entered is its own, and only a
+		// successful Add enters it: a refused registration removes nothing
+		// from the global name table (the incumbent keeps its entry)
+		verif.Ensures(!verif.Called(evDel), "refused_registration_leaves_the_name_table_alone")
 		if ran && verif.RetErr(evPxyRun, 1) == nil {
 			verif.Ensures(verif.Called(evPxyClose), "failure_after_run_closes_proxy")
 		}
@@ -366,8 +374,9 @@ func verif_CloseProxy(ctl *Control, closeMsg *msg.CloseProxy) {
 	}
 }
 
-// Session end: the pool is closed (so late work connections are refused, not
-// parked) and drained; every proxy of the session is closed, its name released
+// Session end: the control connection is closed whatever ended the session
+// (a protocol error leaves the transport open otherwise); the pool is closed
+// (so late work connections are refused, not parked) and drained; every proxy of the session is closed, its name released
 // and its close notified; the session is reported ended (doneCh) only after all
 // of that - a re-login waits on doneCh before it is acknowledged.
 //
@@ -375,12 +384,18 @@ func verif_CloseProxy(ctl *Control, closeMsg *msg.CloseProxy) {
 //verif:props C10 C11 C12 C15
 func verif_worker(ctl *Control) {
 	verif.Requires(!verif.Closed(ctl.workConnCh) && !verif.Closed(ctl.doneCh) && ctl.workConnCh != nil && ctl.doneCh != nil, "session_running")
+	conn0 := ctl.conn
 	verif.ResetEvents()
 	ctl.worker()
+	verif.Ensures(verif.CalledWith("net.Conn).Close", 0, conn0) && verif.CalledBefore("net.Conn).Close", "close:H.server.Control.doneCh"), "control_connection_closed_before_the_end_is_reported")
 	verif.Ensures(verif.Closed(ctl.workConnCh), "pool_closed")
 	verif.Ensures(verif.Closed(ctl.doneCh), "end_reported")
 	verif.Ensures(verif.CalledBefore("loop:(*github.com/fatedier/frp/server.Control).worker#2", "close:H.server.Control.doneCh"), "end_reported_after_proxies_released")
 	verif.Ensures(verif.CalledBefore("close:H.server.Control.workConnCh", "loop:(*github.com/fatedier/frp/server.Control).worker#1"), "pool_closed_before_drain")
+	// the drain stops only when a receive from the closed pool reports "empty"
+	// (ok == false): no pooled connection is left behind
+	nRecv := verif.CallCount("recv")
+	verif.Ensures(nRecv >= 2 && verif.NthArg[chan net.Conn]("recv", nRecv-1, 0) == ctl.workConnCh && !verif.NthRet[bool]("recv", nRecv-1, 0), "drained_until_the_closed_pool_is_empty")
 }
 
 //verif:loopbody (*~/server.Control).worker 1 check=verifWorkerDrain args=workConn
@@ -659,4 +674,28 @@ func verif_server_NewService_shared_port(cfg *v1.ServerConfig) {
 	} else {
 		verif.Ensures(!verif.Called("mux.Mux).ListenHTTP$"), "http_vhost_on_its_own_port_is_not_muxed")
 	}
+}
+
+// Control.Start's requester goroutine (C11 "bounded pool": the server asks in
+// advance for the session's pool size - min(client's poolCount, the server's
+// maxPoolCount), fixed by NewControl - and not for more): the loop counter never
+// exceeds ctl.poolCount, and every iteration sends one request.
+//
+//verif:loop (*~/server.Control).Start$1 1 inv=verifLoopStartRequests args=i,ctl
+func verifLoopStartRequests(i int, ctl *Control) bool {
+	return i == 0 || i <= ctl.poolCount
+}
+
+//verif:loopbody (*~/server.Control).Start$1 1 check=verifStartSendsOneRequest args=ctl
+func verifStartSendsOneRequest(ctl *Control) bool {
+	_, isReq := verif.IterArg[msg.Message]("msg.Dispatcher).Send", 1).(*msg.ReqWorkConn)
+	return verif.CalledWithInIter("msg.Dispatcher).Send", 0, ctl.msgDispatcher) && isReq
+}
+
+//verif:contract (*~/server.Control).Start$1
+//verif:props C11
+//verif:kinds loop,post,pre
+func verif_Control_Start_requester() {
+	verif.ResetEvents()
+	verif.CallTarget()
 }
